@@ -781,7 +781,9 @@ func genArchive(c *ctx) {
 				res := c15Write(tmp, &seq, rootSrc, gsegs, nil)
 				if want := "ok|" + c15CanonNodes(nodes); end != "eof" || res != want {
 					gkey := "grow-shifts"
-					if end == "eof" && c15TreeKey(tmp, &seq, rootSrc, gsegs, want, c15Reused) != "roundtrip-tree" {
+					if strings.HasPrefix(res, "nowriter") {
+						gkey = "mode-disagree:" + c15Shape(nodes) // not about the growth: the receiver opened no archive writer
+					} else if end == "eof" && c15TreeKey(tmp, &seq, rootSrc, gsegs, want, c15Reused) != "roundtrip-tree" {
 						gkey = "roundtrip-tree:reused-buffer" // the reader was fine; the writer kept the caller's slice
 					}
 					c.violate(gkey, "a source file that grew after the scan corrupted the archive",
@@ -1072,6 +1074,7 @@ type c15ModeCase struct {
 	planPanic string
 	pair      trzsz.VerifPairResult
 	pairDiffs []string
+	failing   string
 	pairPanic string
 }
 
@@ -1278,12 +1281,29 @@ func c15Mode(c *ctx, tmp string) {
 			if len(r.LocalNames) != len(mc.paths) {
 				mc.pairDiffs = append(mc.pairDiffs, fmt.Sprintf("names-count: receiver saved %v for %d sources", r.LocalNames, len(mc.paths)))
 			}
+			bad := map[string]bool{}
 			for j, p := range mc.paths {
+				var d []string
 				if j < len(r.LocalNames) {
-					mc.pairDiffs = append(mc.pairDiffs, sameTree(p, filepath.Join(dest, r.LocalNames[j]))...)
+					d = sameTree(p, filepath.Join(dest, r.LocalNames[j]))
 				} else {
-					mc.pairDiffs = append(mc.pairDiffs, "dest-missing:"+filepath.Base(p))
+					d = sameTree(p, filepath.Join(dest, filepath.Base(p))) // a failed recvFiles returns no names; the destination was empty
 				}
+				if len(d) > 0 {
+					if len(bad) == 0 {
+						bad[mc.srcs[j].shape()] = true // the first root that did not arrive names the case; the transfer stops there
+					}
+					mc.pairDiffs = append(mc.pairDiffs, d...)
+				}
+			}
+			var bl []string
+			for k := range bad {
+				bl = append(bl, k)
+			}
+			sort.Strings(bl)
+			mc.failing = strings.Join(bl, "+")
+			if mc.failing == "" {
+				mc.failing = "no-success"
 			}
 		}()
 		os.RemoveAll(mc.dir)
@@ -1310,7 +1330,11 @@ func c15Mode(c *ctx, tmp string) {
 			sk, rk := c15ModeKind(st.Sender), c15ModeKind(st.Receiver)
 			if sk != rk {
 				// direct oracle: after the NAME exchange both ends must expect the same thing
-				c.violate("mode-disagree:"+shapes, "after the NAME exchange the sender and the receiver are out of step (one streams / expects an archive, the other does not)",
+				rootShape := shapes
+				if st.PathID >= 0 && st.PathID < len(mc.srcs) {
+					rootShape = mc.srcs[st.PathID].shape()
+				}
+				c.violate("mode-disagree:"+rootShape, "after the NAME exchange the sender and the receiver are out of step (one streams / expects an archive, the other does not)",
 					fmt.Sprintf("%s :: root=%v entries-below=%d sender=%s receiver=%s NAME=%s", desc, st.RelPath, st.NSubs, st.Sender, st.Receiver, st.Name))
 			}
 		}
@@ -1318,13 +1342,17 @@ func c15Mode(c *ctx, tmp string) {
 			c.violate("pair-panic:"+shapes, "sendFiles / recvFiles panicked", desc+" :: "+mc.pairPanic)
 		}
 		if len(mc.pairDiffs) > 0 {
-			c.violate("pair-tree:"+shapes, "a whole in-process transfer (real sendFiles against real recvFiles) did not reproduce the source trees",
+			c.violate("pair-tree:"+mc.failing, "a whole in-process transfer (real sendFiles against real recvFiles) did not reproduce the source trees",
 				desc+" :: "+strings.Join(mc.pairDiffs, "; "))
 		}
 		flags, isDir, streamed, names := c15WireNames(mc.pair.S2R)
 		for j := range flags {
 			if isDir[j] && flags[j] != streamed[j] {
-				c.violate("mode-disagree-wire:"+shapes, "on the wire: the NAME record's archive flag and what the sender sends next (SIZE = a stream) disagree",
+				wshape := shapes
+				if j < len(mc.srcs) && !mc.overwrite && mc.proto >= 4 {
+					wshape = mc.srcs[j].shape()
+				}
+				c.violate("mode-disagree-wire:"+wshape, "on the wire: the NAME record's archive flag and what the sender sends next (SIZE = a stream) disagree",
 					fmt.Sprintf("%s :: NAME=%s flag=%v streamed=%v", desc, names[j], flags[j], streamed[j]))
 			}
 		}
